@@ -271,6 +271,13 @@ func (mi *MessageInfo) unmarshalPointerLazy(b []byte, p pointer, groupTag protow
 				case lazyFields == nil || lazyFields[f] == lazyValidateOnly:
 					// Attempt to validate this field and leave it for later lazy unmarshaling.
 					o, valid := mi.skipField(b, f, wtyp, opts)
+					if valid == ValidationValid && !o.initialized && opts.flags&piface.UnmarshalCheckRequired != 0 {
+						// Required fields may be missing inside this field and the
+						// caller is going to check for them. That check skips
+						// fields that are still lazy, so unmarshal this one now
+						// (or after the loop if an earlier occurrence was skipped).
+						valid = ValidationUnknown
+					}
 					switch valid {
 					case ValidationValid:
 						// Skip over the valid field and continue.
